@@ -30,7 +30,7 @@ def doubles(res):
     thorough = res.tier == "thorough"
     rng = core.rng_for(res.seed, "c17")
     out = set()
-    for e in range(-1074, 1024, 1 if thorough else 3):
+    for e in range(-1074, 1024):
         for d in (-1, 0, 1):
             try:
                 out.add(bits(math.ldexp(1.0, e)) + d)
@@ -55,9 +55,9 @@ def doubles(res):
     for s in ("0.1", "0.2", "0.3", "1e16", "1e15", "9999999999999998.0", "1e-4", "1e-5", "0.0001", "0.00001", "123456789012345.6", "1234567890123456.7",
               "5e-324", "2.2250738585072014e-308", "1.7976931348623157e308", "1000000000000000.25", "0.9999999999999999", "1.0000000000000002", "4.35", "2.675", "1e22", "1e23"):
         out.add(bits(float(s)))
-    for _ in range(60000 if thorough else 12000):
+    for _ in range(600000 if thorough else 60000):
         out.add(rng.getrandbits(64))
-    for _ in range(20000 if thorough else 4000):
+    for _ in range(200000 if thorough else 20000):
         out.add(bits(rng.uniform(-1e6, 1e6)))
         out.add(bits(round(rng.uniform(-1e4, 1e4), rng.randint(0, 6))))
     out |= {bits(float("inf")), bits(float("-inf")), bits(float("nan")), bits(0.0), bits(-0.0)}
@@ -250,12 +250,12 @@ def strings(res):
         out.append(base[:i] + "_" + base[i:])
     out += ["1__0", "_1", "1_", "1e1_0", "1_e1", "1._0", "1_.0", "1 1", "0x1", "1e400", "1e-400", "-1e400", "1e", "e1", ".", "+", "-", "", " ", "١", "１", "1\x00", "\x001", "1e+", "1e-", "+-1", "--1", "1.e1", ".e1", "0_0", "00", "1_000_000.000_001e1_0",
             "1" * 400, "0." + "0" * 400 + "1", "9" * 310, "1e309", "1.7976931348623159e308", "4.9e-324", "2.4703282292062328e-324", "2.4703282292062327e-324"]
-    for _ in range(30000 if thorough else 4000):
+    for _ in range(300000 if thorough else 30000):
         out.append("".join(rng.choice("0123456789_.eE+- ") for _ in range(rng.randint(1, 24))))
-    for _ in range(30000 if thorough else 4000):
+    for _ in range(300000 if thorough else 30000):
         m = "".join(rng.choice("0123456789") for _ in range(rng.randint(1, 20)))
         out.append(rng.choice(["", "-", "+"]) + m[:rng.randint(0, len(m))] + "." + m[rng.randint(0, len(m)):] + rng.choice(["", "e%d" % rng.randint(-330, 330), "E+%d" % rng.randint(0, 20)]))
-    out += halfway_strings(rng, 6000 if thorough else 1200)
+    out += halfway_strings(rng, 60000 if thorough else 6000)
     seen = set()
     return [s for s in out if not (s in seen or seen.add(s))]
 
